@@ -352,6 +352,10 @@ func (u *Unit) readElem(st *State, r *Region, idx *Term, path string, t types.Ty
 			return StringV{R: u.derived(r, idx, path, types.Typ[types.Uint8]), Off: IntK(0), Len: ln}
 		}
 	case *types.Pointer:
+		if strings.HasSuffix(path, "@"+relType(t)) {
+			// the dynamic value of an interface: well-formed packets are non-nil pointers (assumption A4)
+			return ElemPtr{R: r, Idx: idx, Path: path + "*", Typ: ut.Elem()}
+		}
 		return ElemPtr{R: r, Idx: idx, Path: path + "*", Typ: ut.Elem(), Nil: u.compMem(st, r, path+"#nil", SortBool).read(idx)}
 	case *types.Interface:
 		if isErrorType(t) {
